@@ -328,3 +328,16 @@ func (w *World) PkgVar(pkgRel, name string) *types.Var {
 	v, _ := p.Types.Scope().Lookup(name).(*types.Var)
 	return v
 }
+
+var fileCache = map[string][]byte{}
+
+func readFileCached(name string) ([]byte, error) {
+	if b, ok := fileCache[name]; ok {
+		return b, nil
+	}
+	b, err := os.ReadFile(name)
+	if err == nil {
+		fileCache[name] = b
+	}
+	return b, err
+}
